@@ -120,6 +120,10 @@ def resolve(token: Any, env: dict[str, Any]) -> Any:
         for p in path:
             if isinstance(cur, dict):
                 cur = cur.get(p)
+            elif cur is None or isinstance(cur, (str, bytes, int, float, list, tuple, set, frozenset)):
+                # plain (JSON) values have no sub-fields: a step into them is a missing step,
+                # not a lookup of Python attributes such as int.real or str.upper
+                cur = None
             else:
                 cur = getattr(cur, p, None)
         return cur
